@@ -238,6 +238,12 @@ def byte_mutants(rng, text):
     out.append(("insert", b[:k] + junk + b[k:]))
     depth = rng.choice([100, 1000, 1001, 5000, 100000])
     out.append(("deep-nesting", rng.choice([b"[" * depth, b"[" * depth + b"]" * depth, b'{"version":"1.1","features":' + b"[" * depth + b"]" * depth + b"}", (b'{"a":' * depth) + b"1" + b"}" * depth])))
+    # the same with a string first whose content ends in an escaped backslash, holds an escaped quote, or holds brackets: a scanner that mistakes where the
+    # string ends does not see the nesting that follows (or counts brackets that are text)
+    decoy = rng.choice([b'"a\\\\"', b'"a\\""', b'"a\\\\\\""', b'"[[[[{{{{"', b'"\\\\[\\"]"'])
+    out.append(("deep-nesting-after-string", rng.choice([b"[" + decoy + b"," + b"[" * depth + b"]" * depth + b"]",
+                                                         b'{"version":"1.1","k":' + decoy + b',"features":' + b"[" * depth + b"]" * depth + b"}",
+                                                         b'{' + decoy + b':' + (b'{"a":' * depth) + b"1" + b"}" * depth + b"}"])))
     out.append(("huge-number", text.replace("1.1", "1.1", 1).replace(":", ":1e999999,\"x\":", 1).encode() if rng.random() < 0.5 else (b'{"version":"1.1","features":[],"potential mantle temperature":' + b"9" * rng.choice([400, 5000]) + b"}")))
     out.append(("special", rng.choice([b"", b" ", b"null", b"{}", b"[]", b'{"version":"1.1"}', b'{"features":[]}', b"\xff\xfe", b'{"version":"1.1","features":[],"version":"1.1"}',
                                        b'{"version":"1.1","features":[{"model":"plume","name":NaN}]}', b'{"version":"1.1","features":[],"surface temperature":NaN}'])))
@@ -263,6 +269,12 @@ def format_variants(rng, w):
         lines[k] = lines[k] + rng.choice(["  // a comment", " /* block */", "   ", "\t"])
     out.append(("comments", "// leading comment\n" + "\n".join(lines) + "\n/* trailing */\n"))
     out.append(("compact", json.dumps(w, separators=(",", ":"))))
+    # free-text strings (feature names) holding thousands of brackets, quotes and backslashes: text, not nesting
+    w2 = copy.deepcopy(w)
+    for f in w2.get("features", []):
+        if isinstance(f, dict):
+            f["name"] = rng.choice(["[" * 3000, "{[" * 1500 + "\\", "a\\", "q\"" + "[" * 2000, "\\\"" + "{" * 1200 + "\\"])
+    out.append(("bracket-strings", json.dumps(w2)))
     return out
 
 
